@@ -106,6 +106,7 @@ def Den (t : Ty) (v : Val) : Prop :=
   | .sensitive t' => ∃ x, v = .sensitive x ∧ Den t' x
   | .iterable _ => False
   | .runtime _ _ _ => False       -- no value of the value language is a runtime value
+  | .callable _ _ _ => False      -- no value of the value language is a lambda
   | .iterator _ => False          -- no value of the value language is an iterator
   | .object none => (∃ q, v = .obj q) ∨ (∃ u, v = .typ u)   -- pcore: every type is an instance of Object through its meta type
   | .object (some p) => ∃ q, v = .obj q ∧ isPrefix p q = true
